@@ -30,7 +30,7 @@ def _parse_states(text):
         if m:
             cur = {}; states.append(cur); var = None; continue
         if cur is None: continue
-        m = re.match(r"^/\\ (\w+) = (.*)$", line)
+        m = re.match(r"^(?:/\\ )?(\w+) = (.*)$", line)
         if m:
             var = m.group(1); cur[var] = m.group(2); continue
         if line.strip() == "":
